@@ -1,0 +1,28 @@
+//go:build verif
+
+package ugo
+
+import "sync/atomic"
+
+// VerifHook is called at named synchronisation points when the package is
+// built with the "verif" tag. It is used by the verification harness to park a
+// goroutine at a point of the Abort/Run/Invoke protocol and to interleave
+// another action deterministically.
+type VerifHook func(point string, vm *VM)
+
+var verifHook atomic.Value // VerifHook
+
+// SetVerifHook installs (or removes with nil) the hook function.
+func SetVerifHook(h VerifHook) {
+	if h == nil {
+		verifHook.Store(VerifHook(nil))
+		return
+	}
+	verifHook.Store(h)
+}
+
+func verifPoint(point string, vm *VM) {
+	if h, _ := verifHook.Load().(VerifHook); h != nil {
+		h(point, vm)
+	}
+}
